@@ -154,10 +154,13 @@ def run_one(args):
     # for C16, whose subject is the wiring itself; corpus instances go through both (explicit entry)
     period = 2 if os.path.basename(d) == "C16" else 4
     entry = args[3] if len(args) > 3 else ("internal" if k % period == period - 1 else "server")
-    res = solve.run_solve(d, "c%d" % k, inst, pipemodel=True, entry=entry)
+    # every fifth run uses the optimised (release) build of the harness — the build users deploy; same hooks, same replay
+    release = (k % 5 == 2)
+    res = solve.run_solve(d, "c%d" % k, inst, release=release, pipemodel=True, entry=entry)
     res["inst"] = inst
     res["k"] = k
     res["entry"] = entry
+    res["build"] = "release" if release else "debug"
     return res
 
 
@@ -167,6 +170,7 @@ def main(pid, tier, seed):
     lib.build_coq()
     lib.build_driver()
     lib.build_harness()
+    lib.build_harness(release=True)
     n = lib.ncases(180 if tier == "quick" else 12000)
     rng = random.Random(seed * 7919 + int(pid[1:]))
     d = lib.casedir(pid)
@@ -276,6 +280,7 @@ def conclude(pid, tier, seed, t0, proof, results, what, failures_fn=None, extra_
         "property_failures_on_impl": len(violations), "known_findings_hit": sorted(seen), "compared": what,
         "correspondence_differences": len(corr),
         "cone_correspondence_cases": cone_counts, "cone_correspondence_differences": len(cone_diffs),
+        "builds": {b: len([r for r in results if r.get("build") == b]) for b in ("debug", "release")},
         "entry_points": {e: len([r for r in results if r.get("entry") == e]) for e in ("server", "internal")
                          if any(r.get("entry") == e for r in results)},
     }
